@@ -11,6 +11,7 @@ from vp import gen, probe, refmodels as rm
 from vp import defaults
 from vp import reuse
 from vp import forms as argforms
+from vp import corners
 
 RULE = ('seeded generator: planes with amplitude/OPD each scalar or 2-D, mask None/2-D/3-D (disjoint segments), '
         'arrays 3..20 per side; wavefronts reached by chains of 1..3 planes and propagations (1..8 overlapping or '
@@ -20,7 +21,7 @@ RULE = ('seeded generator: planes with amplitude/OPD each scalar or 2-D, mask No
 ASSUMPTIONS = ['a plane with scalar amplitude, array OPD and no mask has no extent and is excluded (DESIGN.md C07)',
                'segment masks of one plane are pairwise disjoint']
 PLAN = {'quick': {'gen': 8}, 'thorough': {'gen': 16, 'tests': 1, 'docs': 1}}
-REQUIRED_BUCKETS = ['defaults', 'reuse', 'forms', 'wf:many-fields', 'broadband', 'plane:reused', 'wf:chain-overlap', 'amp:scalar', 'amp:array', 'opd:scalar', 'opd:array', 'mask:none', 'mask:2d', 'mask:3d',
+REQUIRED_BUCKETS = ['defaults', 'corners', 'reuse', 'forms', 'wf:many-fields', 'broadband', 'plane:reused', 'wf:chain-overlap', 'amp:scalar', 'amp:array', 'opd:scalar', 'opd:array', 'mask:none', 'mask:2d', 'mask:3d',
                     'amp:scalar+mask:array', 'wf:default', 'wf:chain', 'wf:multi-field', 'wf:overlapping-fields',
                     'plane:default', 'pixelscale:mismatch', 'pixelscale:mismatch:scalar-plane', 'insert:weight0', 'insert:negative', 'pupil:focal', 'outside-mask:non-finite', 'mask:narrow-float']
 REQUIRED_ANCHORS = ['probe:Plane.multiply', 'probe:Pupil.multiply', 'probe:Wavefront.field',
@@ -369,6 +370,7 @@ def workload(ctx, lentil):
     defaults.run(ctx, lentil, 'C07', 'multiply=phasor')
     reuse.run(ctx, lentil, 'C07', 'multiply=phasor')
     argforms.run(ctx, lentil, 'C07', 'multiply=phasor')
+    corners.run(ctx, lentil, 'C07', 'multiply=phasor')
     rng = ctx.rng
     if ctx.shard % 4 == 0:
         many_fields(ctx, lentil, rng)
